@@ -1,0 +1,491 @@
+//go:build verif
+
+// Contracts for the binary reader / writer (properties C12, C13, C15). Comment-only //@ blocks are read
+// by /verif/engine (govc); the Go functions are lemma functions verified like any other function.
+
+package messages
+
+// ---------------------------------------------------------------------------------------------
+// Reader: byte-level contracts. They hold for ARBITRARY buffer contents (C13): every read either
+// returns the decoded token and advances by exactly its size, or sets the sticky error and does not move.
+// ---------------------------------------------------------------------------------------------
+
+//@ pure rwf(r *Reader) bool = 0 <= r.pos && r.pos <= len(r.buf) && r.order != nil
+
+//@ func (*Reader).check
+//@   requires rwf(r)
+//@   modifies r.err
+//@   ensures result <==> (old(r.err) == nil && r.pos + n <= len(r.buf))
+//@   ensures result ==> r.err == nil
+//@   ensures !result ==> r.err != nil
+
+//@ func (*Reader).ReadByte
+//@   requires rwf(r)
+//@   modifies r.pos, r.err
+//@   ensures rwf(r)
+//@   ensures result.1 == nil <==> (old(r.err) == nil && old(r.pos) + 1 <= len(r.buf))
+//@   ensures result.1 == nil ==> result.0 == r.buf[old(r.pos)] && r.pos == old(r.pos) + 1 && r.err == nil
+//@   ensures result.1 != nil ==> r.pos == old(r.pos) && r.err != nil && result.0 == 0
+
+//@ func (*Reader).ReadUint8
+//@   requires rwf(r)
+//@   modifies r.pos, r.err
+//@   ensures rwf(r)
+//@   ensures result.1 == nil <==> (old(r.err) == nil && old(r.pos) + 1 <= len(r.buf))
+//@   ensures result.1 == nil ==> result.0 == r.buf[old(r.pos)] && r.pos == old(r.pos) + 1 && r.err == nil
+//@   ensures result.1 != nil ==> r.pos == old(r.pos) && r.err != nil && result.0 == 0
+
+//@ func (*Reader).ReadInt8
+//@   requires rwf(r)
+//@   modifies r.pos, r.err
+//@   ensures rwf(r)
+//@   ensures result.1 == nil <==> (old(r.err) == nil && old(r.pos) + 1 <= len(r.buf))
+//@   ensures result.1 == nil ==> result.0 == int8(r.buf[old(r.pos)]) && r.pos == old(r.pos) + 1 && r.err == nil
+//@   ensures result.1 != nil ==> r.pos == old(r.pos) && r.err != nil
+
+//@ func (*Reader).ReadBool
+//@   requires rwf(r)
+//@   modifies r.pos, r.err
+//@   ensures rwf(r)
+//@   ensures result.1 == nil <==> (old(r.err) == nil && old(r.pos) + 1 <= len(r.buf))
+//@   ensures result.1 == nil ==> result.0 == (r.buf[old(r.pos)] != 0) && r.pos == old(r.pos) + 1 && r.err == nil
+//@   ensures result.1 != nil ==> r.pos == old(r.pos) && r.err != nil
+
+//@ func (*Reader).ReadUint16
+//@   requires rwf(r)
+//@   modifies r.pos, r.err
+//@   ensures rwf(r)
+//@   ensures result.1 == nil <==> (old(r.err) == nil && old(r.pos) + 2 <= len(r.buf))
+//@   ensures result.1 == nil ==> result.0 == bo16(r.order, r.buf[old(r.pos)], r.buf[old(r.pos) + 1]) && r.pos == old(r.pos) + 2 && r.err == nil
+//@   ensures result.1 != nil ==> r.pos == old(r.pos) && r.err != nil && result.0 == 0
+
+//@ func (*Reader).ReadInt16
+//@   requires rwf(r)
+//@   modifies r.pos, r.err
+//@   ensures rwf(r)
+//@   ensures result.1 == nil <==> (old(r.err) == nil && old(r.pos) + 2 <= len(r.buf))
+//@   ensures result.1 == nil ==> result.0 == int16(bo16(r.order, r.buf[old(r.pos)], r.buf[old(r.pos) + 1])) && r.pos == old(r.pos) + 2 && r.err == nil
+//@   ensures result.1 != nil ==> r.pos == old(r.pos) && r.err != nil
+
+//@ pure u32at(r *Reader, p mathint) mathint = bo32(r.order, r.buf[p], r.buf[p + 1], r.buf[p + 2], r.buf[p + 3])
+//@ pure u64at(r *Reader, p mathint) mathint =
+//@     bo64(r.order, r.buf[p], r.buf[p + 1], r.buf[p + 2], r.buf[p + 3], r.buf[p + 4], r.buf[p + 5], r.buf[p + 6], r.buf[p + 7])
+
+//@ func (*Reader).ReadUint32
+//@   requires rwf(r)
+//@   modifies r.pos, r.err
+//@   ensures rwf(r)
+//@   ensures result.1 == nil <==> (old(r.err) == nil && old(r.pos) + 4 <= len(r.buf))
+//@   ensures result.1 == nil ==> result.0 == u32at(r, old(r.pos)) && r.pos == old(r.pos) + 4 && r.err == nil
+//@   ensures result.1 != nil ==> r.pos == old(r.pos) && r.err != nil && result.0 == 0
+
+//@ func (*Reader).ReadInt32
+//@   requires rwf(r)
+//@   modifies r.pos, r.err
+//@   ensures rwf(r)
+//@   ensures result.1 == nil <==> (old(r.err) == nil && old(r.pos) + 4 <= len(r.buf))
+//@   ensures result.1 == nil ==> result.0 == int32(u32at(r, old(r.pos))) && r.pos == old(r.pos) + 4 && r.err == nil
+//@   ensures result.1 != nil ==> r.pos == old(r.pos) && r.err != nil
+
+//@ func (*Reader).ReadUint64
+//@   requires rwf(r)
+//@   modifies r.pos, r.err
+//@   ensures rwf(r)
+//@   ensures result.1 == nil <==> (old(r.err) == nil && old(r.pos) + 8 <= len(r.buf))
+//@   ensures result.1 == nil ==> result.0 == u64at(r, old(r.pos)) && r.pos == old(r.pos) + 8 && r.err == nil
+//@   ensures result.1 != nil ==> r.pos == old(r.pos) && r.err != nil && result.0 == 0
+
+//@ func (*Reader).ReadInt64
+//@   requires rwf(r)
+//@   modifies r.pos, r.err
+//@   ensures rwf(r)
+//@   ensures result.1 == nil <==> (old(r.err) == nil && old(r.pos) + 8 <= len(r.buf))
+//@   ensures result.1 == nil ==> result.0 == int64(u64at(r, old(r.pos))) && r.pos == old(r.pos) + 8 && r.err == nil
+//@   ensures result.1 != nil ==> r.pos == old(r.pos) && r.err != nil
+
+//@ func (*Reader).ReadBytes
+//@   requires rwf(r) && 0 <= n
+//@   modifies r.pos, r.err
+//@   ensures rwf(r)
+//@   ensures result.1 == nil <==> (old(r.err) == nil && old(r.pos) + n <= len(r.buf))
+//@   ensures result.1 == nil ==> len(result.0) == n && fresh(result.0) && result.0 != nil && r.pos == old(r.pos) + n && r.err == nil
+//@   ensures result.1 == nil ==> forall i mathint :: 0 <= i && i < n ==> result.0[i] == r.buf[old(r.pos) + i]
+//@   ensures result.1 != nil ==> r.pos == old(r.pos) && r.err != nil && result.0 == nil
+
+//@ func (*Reader).Pos
+//@   ensures result == r.pos
+
+//@ func (*Reader).ReadBytesWithLength
+//@   requires rwf(r)
+//@   modifies r.pos, r.err
+//@   ensures rwf(r)
+//@   ensures lengthSize == 4 ==> (result.1 == nil <==> (old(r.err) == nil && old(r.pos) + 4 <= len(r.buf) && old(r.pos) + 4 + u32at(r, old(r.pos)) <= len(r.buf)))
+//@   ensures lengthSize == 4 && result.1 == nil ==> len(result.0) == u32at(r, old(r.pos)) && fresh(result.0) && r.pos == old(r.pos) + 4 + len(result.0) && r.err == nil
+//@   ensures lengthSize == 4 && result.1 == nil ==> forall i mathint :: 0 <= i && i < len(result.0) ==> result.0[i] == r.buf[old(r.pos) + 4 + i]
+//@   ensures lengthSize == 1 ==> (result.1 == nil <==> (old(r.err) == nil && old(r.pos) + 1 <= len(r.buf) && old(r.pos) + 1 + r.buf[old(r.pos)] <= len(r.buf)))
+//@   ensures lengthSize == 1 && result.1 == nil ==> len(result.0) == r.buf[old(r.pos)] && fresh(result.0) && r.pos == old(r.pos) + 1 + len(result.0) && r.err == nil
+//@   ensures lengthSize == 1 && result.1 == nil ==> forall i mathint :: 0 <= i && i < len(result.0) ==> result.0[i] == r.buf[old(r.pos) + 1 + i]
+//@   ensures result.1 != nil ==> result.0 == nil
+//@   ensures result.1 == nil ==> result.0 != nil && r.err == nil
+//@   ensures r.pos >= old(r.pos)
+//@   ensures old(r.err) != nil ==> result.1 != nil
+
+//@ func (*Reader).ReadString
+//@   requires rwf(r)
+//@   modifies r.pos, r.err
+//@   ensures rwf(r)
+//@   ensures result.1 == nil <==> (old(r.err) == nil && old(r.pos) + 4 <= len(r.buf) && old(r.pos) + 4 + u32at(r, old(r.pos)) <= len(r.buf))
+//@   ensures result.1 == nil ==> result.0 == bytestr(r.buf, old(r.pos) + 4, u32at(r, old(r.pos))) && r.pos == old(r.pos) + 4 + u32at(r, old(r.pos)) && r.err == nil
+//@   ensures result.1 != nil ==> result.0 == ""
+//@   ensures r.pos >= old(r.pos)
+
+//@ func NewReader
+//@   requires len(opts) == 0
+//@   ensures result != nil && fresh(result) && result.buf == data && result.pos == 0 && result.err == nil && rwf(result)
+//@   ensures result.order == emptyiface("binary.bigEndian")
+
+// ---------------------------------------------------------------------------------------------
+// Writer: every write appends exactly the token's bytes, keeps everything written before, and the
+// appended bytes decode (with the writer's byte order) to the value written.
+// ---------------------------------------------------------------------------------------------
+
+//@ pure wwf(w *Writer) bool = w.order != nil && arr(w.buf) != obj(w)
+//@ pure kept(w *Writer, n mathint) bool = forall i mathint :: 0 <= i && i < n ==> w.buf[i] == old(w.buf[i])
+
+//@ func NewWriter
+//@   requires len(opts) == 0
+//@   ensures result != nil && fresh(result) && len(result.buf) == 0 && result.err == nil && wwf(result)
+//@   ensures result.order == emptyiface("binary.bigEndian")
+
+//@ func (*Writer).ensureCapacity
+//@   requires wwf(w)
+//@   ensures  wwf(w)
+//@   modifies w.buf
+//@   ensures len(w.buf) == old(len(w.buf)) && kept(w, len(w.buf))
+
+//@ func (*Writer).writeByte
+//@   requires wwf(w)
+//@   ensures  wwf(w)
+//@   modifies w.buf
+//@   ensures result == w
+//@   ensures old(w.err) != nil ==> w.buf == old(w.buf)
+//@   ensures old(w.err) == nil ==> len(w.buf) == old(len(w.buf)) + 1 && w.buf[old(len(w.buf))] == v && kept(w, old(len(w.buf)))
+
+//@ func (*Writer).WriteUint8
+//@   requires wwf(w)
+//@   ensures  wwf(w)
+//@   modifies w.buf
+//@   ensures result == w
+//@   ensures old(w.err) != nil ==> w.buf == old(w.buf)
+//@   ensures old(w.err) == nil ==> len(w.buf) == old(len(w.buf)) + 1 && w.buf[old(len(w.buf))] == v && kept(w, old(len(w.buf)))
+
+//@ func (*Writer).WriteInt8
+//@   requires wwf(w)
+//@   ensures  wwf(w)
+//@   modifies w.buf
+//@   ensures result == w
+//@   ensures old(w.err) != nil ==> w.buf == old(w.buf)
+//@   ensures old(w.err) == nil ==> len(w.buf) == old(len(w.buf)) + 1 && int8(w.buf[old(len(w.buf))]) == v && kept(w, old(len(w.buf)))
+
+//@ func (*Writer).WriteBool
+//@   requires wwf(w)
+//@   ensures  wwf(w)
+//@   modifies w.buf
+//@   ensures result == w
+//@   ensures old(w.err) != nil ==> w.buf == old(w.buf)
+//@   ensures old(w.err) == nil ==> len(w.buf) == old(len(w.buf)) + 1 && (w.buf[old(len(w.buf))] != 0) == v && kept(w, old(len(w.buf)))
+
+//@ pure w16at(w *Writer, p mathint) mathint = bo16(w.order, w.buf[p], w.buf[p + 1])
+//@ pure w32at(w *Writer, p mathint) mathint = bo32(w.order, w.buf[p], w.buf[p + 1], w.buf[p + 2], w.buf[p + 3])
+//@ pure w64at(w *Writer, p mathint) mathint =
+//@     bo64(w.order, w.buf[p], w.buf[p + 1], w.buf[p + 2], w.buf[p + 3], w.buf[p + 4], w.buf[p + 5], w.buf[p + 6], w.buf[p + 7])
+
+//@ func (*Writer).WriteUint16
+//@   requires wwf(w)
+//@   ensures  wwf(w)
+//@   modifies w.buf, w.i16buf
+//@   ensures result == w
+//@   ensures old(w.err) != nil ==> w.buf == old(w.buf)
+//@   ensures old(w.err) == nil ==> len(w.buf) == old(len(w.buf)) + 2 && w16at(w, old(len(w.buf))) == v && kept(w, old(len(w.buf)))
+
+//@ func (*Writer).WriteInt16
+//@   requires wwf(w)
+//@   ensures  wwf(w)
+//@   modifies w.buf, w.i16buf
+//@   ensures result == w
+//@   ensures old(w.err) != nil ==> w.buf == old(w.buf)
+//@   ensures old(w.err) == nil ==> len(w.buf) == old(len(w.buf)) + 2 && int16(w16at(w, old(len(w.buf)))) == v && kept(w, old(len(w.buf)))
+
+//@ func (*Writer).WriteUint32
+//@   requires wwf(w)
+//@   ensures  wwf(w)
+//@   modifies w.buf, w.i32buf
+//@   ensures result == w
+//@   ensures old(w.err) != nil ==> w.buf == old(w.buf)
+//@   ensures old(w.err) == nil ==> len(w.buf) == old(len(w.buf)) + 4 && w32at(w, old(len(w.buf))) == v && kept(w, old(len(w.buf)))
+
+//@ func (*Writer).WriteInt32
+//@   requires wwf(w)
+//@   ensures  wwf(w)
+//@   modifies w.buf, w.i32buf
+//@   ensures result == w
+//@   ensures old(w.err) != nil ==> w.buf == old(w.buf)
+//@   ensures old(w.err) == nil ==> len(w.buf) == old(len(w.buf)) + 4 && int32(w32at(w, old(len(w.buf)))) == v && kept(w, old(len(w.buf)))
+
+//@ func (*Writer).WriteUint64
+//@   requires wwf(w)
+//@   ensures  wwf(w)
+//@   modifies w.buf, w.i64buf
+//@   ensures result == w
+//@   ensures old(w.err) != nil ==> w.buf == old(w.buf)
+//@   ensures old(w.err) == nil ==> len(w.buf) == old(len(w.buf)) + 8 && w64at(w, old(len(w.buf))) == v && kept(w, old(len(w.buf)))
+
+//@ func (*Writer).WriteInt64
+//@   requires wwf(w)
+//@   ensures  wwf(w)
+//@   modifies w.buf, w.i64buf
+//@   ensures result == w
+//@   ensures old(w.err) != nil ==> w.buf == old(w.buf)
+//@   ensures old(w.err) == nil ==> len(w.buf) == old(len(w.buf)) + 8 && int64(w64at(w, old(len(w.buf)))) == v && kept(w, old(len(w.buf)))
+
+//@ func (*Writer).WriteBytes
+//@   requires wwf(w)
+//@   ensures  wwf(w)
+//@   modifies w.buf
+//@   ensures result == w
+//@   ensures old(w.err) != nil ==> w.buf == old(w.buf)
+//@   ensures old(w.err) == nil ==> len(w.buf) == old(len(w.buf)) + len(v) && kept(w, old(len(w.buf)))
+//@   ensures old(w.err) == nil ==> forall i mathint :: 0 <= i && i < len(v) ==> w.buf[old(len(w.buf)) + i] == v[i]
+
+//@ func (*Writer).Bytes
+//@   ensures result == w.buf
+//@ func (*Writer).Err
+//@   ensures result == w.err
+//@ func (*Writer).Len
+//@   ensures result == len(w.buf)
+
+
+//@ func (*Writer).WriteBytesWithLength
+//@   requires wwf(w)
+//@   ensures  wwf(w)
+//@   modifies w.buf, w.err, w.i16buf, w.i32buf
+//@   ensures result == w
+//@   ensures old(w.err) != nil ==> w.buf == old(w.buf) && w.err == old(w.err)
+//@   ensures old(w.err) == nil && lengthSize == 4 ==> w.err == nil && len(w.buf) == old(len(w.buf)) + 4 + len(v) && kept(w, old(len(w.buf)))
+//@   ensures old(w.err) == nil && lengthSize == 4 ==> w32at(w, old(len(w.buf))) == uint32(len(v))
+//@   ensures old(w.err) == nil && lengthSize == 4 ==> forall i mathint :: 0 <= i && i < len(v) ==> w.buf[old(len(w.buf)) + 4 + i] == v[i]
+//@   ensures old(w.err) == nil && lengthSize == 1 && len(v) <= 255 ==> w.err == nil && len(w.buf) == old(len(w.buf)) + 1 + len(v) && kept(w, old(len(w.buf)))
+//@   ensures old(w.err) == nil && lengthSize == 1 && len(v) <= 255 ==> w.buf[old(len(w.buf))] == len(v)
+//@   ensures old(w.err) == nil && lengthSize == 1 && len(v) <= 255 ==> forall i mathint :: 0 <= i && i < len(v) ==> w.buf[old(len(w.buf)) + 1 + i] == v[i]
+//@   ensures old(w.err) == nil && lengthSize == 1 && len(v) > 255 ==> w.err != nil && w.buf == old(w.buf)
+//@   ensures old(w.err) == nil && lengthSize != 1 && lengthSize != 2 && lengthSize != 4 ==> w.err != nil && w.buf == old(w.buf)
+
+//@ func (*Writer).WriteString
+//@   requires wwf(w)
+//@   ensures  wwf(w)
+//@   modifies w.buf, w.err, w.i16buf, w.i32buf
+//@   ensures result == w
+//@   ensures old(w.err) != nil ==> w.buf == old(w.buf) && w.err == old(w.err)
+//@   ensures old(w.err) == nil ==> w.err == nil && len(w.buf) == old(len(w.buf)) + 4 + len(v) && kept(w, old(len(w.buf)))
+//@   ensures old(w.err) == nil ==> w32at(w, old(len(w.buf))) == uint32(len(v))
+//@   ensures old(w.err) == nil ==> forall i mathint :: 0 <= i && i < len(v) ==> w.buf[old(len(w.buf)) + 4 + i] == v[i]
+
+// ---------------------------------------------------------------------------------------------
+// round trips of the primitives (C12): the reader returns what the writer was given and consumes
+// exactly the bytes the writer produced
+// ---------------------------------------------------------------------------------------------
+
+//@ func lemmaRoundTripUint32
+//@   ensures err == nil && got == v && pos == n
+func lemmaRoundTripUint32(v uint32) (got uint32, err error, pos int, n int) {
+	w := NewWriter()
+	w.WriteUint32(v)
+	data := w.Bytes()
+	r := NewReader(data)
+	got, err = r.ReadUint32()
+	return got, err, r.Pos(), len(data)
+}
+
+//@ func lemmaRoundTripString
+//@   requires len(v) <= 4294967295
+//@   ensures err == nil && got == v && pos == n
+func lemmaRoundTripString(v string) (got string, err error, pos int, n int) {
+	w := NewWriter()
+	w.WriteString(v)
+	data := w.Bytes()
+	r := NewReader(data)
+	got, err = r.ReadString()
+	return got, err, r.Pos(), len(data)
+}
+
+//@ func lemmaRoundTripMixed
+//@   requires len(s) <= 4294967295
+//@   ensures err1 == nil && err2 == nil && err3 == nil && err4 == nil && a2 == a && s2 == s && b2 == b && c2 == c && pos == n
+func lemmaRoundTripMixed(a int64, s string, b bool, c int16) (a2 int64, s2 string, b2 bool, c2 int16, err1, err2, err3, err4 error, pos int, n int) {
+	w := NewWriter()
+	w.WriteInt64(a)
+	w.WriteString(s)
+	w.WriteBool(b)
+	w.WriteInt16(c)
+	data := w.Bytes()
+	r := NewReader(data)
+	a2, err1 = r.ReadInt64()
+	s2, err2 = r.ReadString()
+	b2, err3 = r.ReadBool()
+	c2, err4 = r.ReadInt16()
+	return a2, s2, b2, c2, err1, err2, err3, err4, r.Pos(), len(data)
+}
+
+// ---------------------------------------------------------------------------------------------
+// registered messages of this package: round trip of each (C12, C15)
+// ---------------------------------------------------------------------------------------------
+
+//@ func lemmaRoundTripNoneArgsCommand
+//@   requires m != nil
+//@   ensures werr == nil && rerr == nil && out.Command == m.Command && pos == n
+func lemmaRoundTripNoneArgsCommand(m *NoneArgsCommandMessage) (out *NoneArgsCommandMessage, werr, rerr error, pos, n int) {
+	w := NewWriter()
+	werr = onNoneArgsCommandMessageWriter(m, w, nil)
+	data := w.Bytes()
+	r := NewReader(data)
+	out = &NoneArgsCommandMessage{}
+	rerr = onNoneArgsCommandMessageReader(out, r, nil)
+	return out, werr, rerr, r.Pos(), len(data)
+}
+
+//@ func lemmaRoundTripPing
+//@   requires m != nil
+//@   ensures werr == nil && rerr == nil && unixnano(out.Time) == int64(unixnano(m.Time)) && pos == n
+func lemmaRoundTripPing(m *PingMessage) (out *PingMessage, werr, rerr error, pos, n int) {
+	w := NewWriter()
+	werr = onPingMessageWriter(m, w, nil)
+	data := w.Bytes()
+	r := NewReader(data)
+	out = &PingMessage{}
+	rerr = onPingMessageReader(out, r, nil)
+	return out, werr, rerr, r.Pos(), len(data)
+}
+
+//@ func lemmaRoundTripPongMessage
+//@   requires m != nil && m.Ping != nil
+//@   ensures werr == nil && rerr == nil && pos == n && out.Ping != nil
+//@   ensures unixnano(out.Ping.Time) == int64(unixnano(m.Ping.Time)) && unixnano(out.RespondTime) == int64(unixnano(m.RespondTime))
+func lemmaRoundTripPongMessage(m *PongMessage) (out *PongMessage, werr, rerr error, pos, n int) {
+	w := NewWriter()
+	werr = onPongMessageWriter(m, w, nil)
+	data := w.Bytes()
+	r := NewReader(data)
+	out = &PongMessage{}
+	rerr = onPongMessageReader(out, r, nil)
+	return out, werr, rerr, r.Pos(), len(data)
+}
+
+// a PongMessage without its Ping cannot be encoded: the writer must report an error, not crash (C13)
+//@ func lemmaPongMessageNilPing
+//@   requires m != nil
+//@   ensures m.Ping == nil ==> werr != nil
+func lemmaPongMessageNilPing(m *PongMessage) (werr error) {
+	w := NewWriter()
+	return onPongMessageWriter(m, w, nil)
+}
+
+//@ func lemmaRoundTripWatchUnwatch
+//@   ensures e1 == nil && e2 == nil && e3 == nil && e4 == nil && pos == n && n == 0
+func lemmaRoundTripWatchUnwatch() (e1, e2, e3, e4 error, pos, n int) {
+	w := NewWriter()
+	e1 = onWatchMessageWriter(&WatchMessage{}, w, nil)
+	e2 = onUnwatchMessageWriter(&UnwatchMessage{}, w, nil)
+	data := w.Bytes()
+	r := NewReader(data)
+	e3 = onWatchMessageReader(&WatchMessage{}, r, nil)
+	e4 = onUnwatchMessageReader(&UnwatchMessage{}, r, nil)
+	return e1, e2, e3, e4, r.Pos(), len(data)
+}
+
+// The reflection paths of the codec are outside the verifier's subset (package reflect). They carry an
+// ASSUMED contract (frame only: what they may write) and are exercised by the bounded stand-in (C12/C13).
+//@ assume func (*Writer).writeReflect
+//@   modifies w.buf, w.err, w.i16buf, w.i32buf, w.i64buf
+//@   ensures wwf(w) || !old(wwf(w))
+//@ assume func (*Reader).readReflect
+//@   modifies r.pos, r.err, anything
+//@   ensures rwf(r) || !old(rwf(r))
+//@   ensures r.buf == old(r.buf) && r.order == old(r.order) && r.pos >= old(r.pos)
+//@   ensures result == nil ==> r.err == nil
+
+// nilPointer is three lines of reflection: assumed to say what it says
+//@ assume func nilPointer
+//@   ensures result <==> nilptr(v)
+
+//@ func (*Writer).Write
+//@   inline
+//@   requires wwf(w)
+//@   modifies w.buf, w.err, w.i16buf, w.i32buf, w.i64buf
+//@   ensures  wwf(w) && result == w
+//@   ensures  old(w.err) != nil ==> w.buf == old(w.buf) && w.err == old(w.err)
+
+// WriteFrom / ReadInto carry no contract: their loops over the (constant-length) variadic slice are
+// executed iteration by iteration at every verified call site (verified by body, unrolled).
+
+//@ func (*Reader).Read
+//@   inline
+//@   requires rwf(r) && !nilptr(v) && ptrobj(v) != obj(r)
+//@   modifies r.pos, r.err, anything
+//@   ensures  rwf(r) && r.buf == old(r.buf) && r.order == old(r.order) && r.pos >= old(r.pos)
+
+// ---------------------------------------------------------------------------------------------
+// message registry and framing of whole messages
+// ---------------------------------------------------------------------------------------------
+
+//@ pure regwf() bool =
+//@     (forall t reflect.Type :: t in internalMessageTypeOfDesc ==> internalMessageTypeOfDesc[t] != nil) &&
+//@     (forall s string :: s in internalMessageNameOfDesc ==> internalMessageNameOfDesc[s] != nil) &&
+//@     outsideMessageDesc != nil
+
+//@ func QueryMessageDesc
+//@   requires regwf()
+//@   ensures  result != nil
+
+//@ func QueryMessageDescByName
+//@   requires regwf()
+//@   ensures  result != nil
+
+// pooled writers/readers: the pool only ever holds objects that were Reset (ReleaseXToPool), so Get
+// behaves like a fresh NewWriter()/NewReader(data) - assumed (sync.Pool is outside the subset)
+//@ assume func NewWriterFromPool
+//@   requires len(opts) == 0
+//@   ensures result != nil && fresh(result) && len(result.buf) == 0 && result.err == nil && wwf(result)
+//@   ensures result.order == emptyiface("binary.bigEndian")
+//@ assume func ReleaseWriterToPool
+//@ assume func NewReaderFromPool
+//@   requires len(opts) == 0
+//@   ensures result != nil && fresh(result) && result.buf == data && result.pos == 0 && result.err == nil && rwf(result)
+//@   ensures result.order == emptyiface("binary.bigEndian")
+//@ assume func ReleaseReaderToPool
+
+// remaining reader API: representation invariant preserved, no panic for any buffer contents
+//@ func (*Reader).ReadShortString
+//@   requires rwf(r)
+//@   modifies r.pos, r.err
+//@   ensures  rwf(r) && r.pos >= old(r.pos)
+//@ func (*Reader).ReadFloat32
+//@   requires rwf(r)
+//@   modifies r.pos, r.err
+//@   ensures  rwf(r) && r.pos >= old(r.pos)
+//@ func (*Reader).ReadFloat64
+//@   requires rwf(r)
+//@   modifies r.pos, r.err
+//@   ensures  rwf(r) && r.pos >= old(r.pos)
+//@ func (*Reader).Skip
+//@   requires rwf(r) && 0 <= n
+//@   modifies r.pos, r.err
+//@   ensures  rwf(r) && r.pos >= old(r.pos)
+//@ func (*Reader).Seek
+//@   requires rwf(r)
+//@   modifies r.pos, r.err
+//@   ensures  rwf(r)
+//@ func (*Reader).Remaining
+//@   requires rwf(r)
+//@ func (*Reader).RemainingSize
+//@   requires rwf(r)
+//@   ensures  result >= 0
